@@ -20,7 +20,7 @@ const char *verif_rule =
     "rejects as malformed no application handler runs during its delivery and at most one new datagram goes back to its sender, which is RST or carries class 4/5; afterwards a "
     "well-formed GET /canary from a new peer and from the hostile peer (server role; also over a new TCP / WS connection when that transport was attacked) is answered 2.05 'canary' "
     "with matching token, resp. a fresh request of the client is answered into its response handler. "
-    "Non-trivial = a hostile input was delivered in a non-initial state or was rejected after passing the fixed header; distinct = by scenario bytes";
+    "Non-trivial = a hostile input was delivered in a non-initial state or was rejected after passing the fixed header; distinct = by scenario bytes Client role, longer tapes: the block-wise upload may be a FETCH with Observe and the scripted 2.31 Continue may name a block up to three ahead of the one just sent.";
 size_t verif_max_tape = 700;
 
 namespace {
